@@ -10,13 +10,31 @@
    The model replays the same releases (`release` = one FinishRead step followed by all enabled
    entry steps, i.e. a schedule of Collect.step) and must agree on every blocked set, on the read
    log and on the final order. *)
-From Coq Require Import List NArith Arith Bool.
+From Coq Require Import String Ascii List NArith Arith Bool.
 Import ListNotations.
-Require Import Verif.Base.Harness Verif.Imports.Rules Verif.Imports.Collect.
+Require Import Verif.Base.Harness Verif.Imports.Rules Verif.Imports.Collect Verif.Imports.Paths Verif.Imports.Names
+               Verif.Imports.NameTables Verif.Imports.History Verif.Imports.Versions.
+Local Open Scope list_scope.
+
+(* one operation of a history on ONE parser value, as the harness performed and observed it *)
+Inductive hist_op :=
+| CSet (maxd:nat) (summary nocheck noparse:bool)
+| CParse (gl:list (idx * list idx)) (root:idx) (b0:list idx) (trace:list (idx * list idx)) (final:list idx).
 
 Inductive c05_case :=
 | Lock (gl:list (idx * list idx)) (maxd:nat) (root:idx) (b0:list idx) (trace:list (idx * list idx)) (final:list idx)
-| Free (gl:list (idx * list idx)) (maxd:nat) (root:idx) (final:list idx).
+| Free (gl:list (idx * list idx)) (maxd:nat) (root:idx) (final:list idx)
+(* name level: the files by key with the path texts of their import lines, the resource given to Parse; the lock-step
+   observations by file id (= position in `files`); `asked` = for every completed read, in order, the file, the NAME
+   the reader was asked for and the version (branch) it returned *)
+| NLock (files:list (string * list string)) (resource:string) (maxd:nat) (b0:list idx) (trace:list (idx * list idx))
+        (final:list idx) (asked:list (idx * string * string))
+(* Set / Parse / Set / Parse ... on one parser; the depth limit of each Parse is the model's, not an observation *)
+| Hist (ops:list hist_op)
+(* versions and app names: the import lines as (path text, text after `as`); no depth limit; `err` = Parse failed with
+   "imported as different appnames / versions" *)
+| NErr (files:list (string * list (string * string))) (resource:string) (nocheck:bool) (b0:list idx)
+       (trace:list (idx * list idx)) (asked:list (idx * string * string)) (err:bool).
 
 Definition set_eqb (a b:list idx) : bool :=
   Nat.eqb (length a) (length b) && forallb (fun x => mem x b) a && forallb (fun x => mem x a) b.
@@ -34,20 +52,115 @@ Fixpoint replay (r:rules) (g:graph) (maxd:nat) (s:state) (tr:list (idx * list id
 Definition fifo_fuel (gl:list (idx * list idx)) : nat :=
   4 + 2 * fold_right (fun p a => length (snd p) + a) 0 gl.
 
-Definition c05_ok (r:rules) (c:c05_case) : bool :=
-  match c with
-  | Lock gl maxd root b0 tr final =>
-      let g := graph_of gl in
-      let s0 := settled r g maxd (init root) in
-      set_eqb (blocked s0) b0 &&
-      match replay r g maxd s0 tr with
+(* the lock-step comparison from a given start state; returns the final state *)
+Definition lock_from (r:rules) (g:graph) (maxd:nat) (st:state) (root:idx) (b0:list idx) (tr:list (idx * list idx))
+                     (final:list idx) : option state :=
+  let s0 := settled r g maxd st in
+  if set_eqb (blocked s0) b0 then
+    match replay r g maxd s0 tr with
+    | None => None
+    | Some s => if quiescent s
+                   && option_eqb (list_eqb N.eqb) (flatten r (flatten_fuel s) (claimed s) [] root) (Some final)
+                   && list_eqb N.eqb (reads s) (map fst tr)
+                then Some s else None
+    end
+  else None.
+Definition lock_ok r g maxd root b0 tr final : bool :=
+  match lock_from r g maxd (init root) root b0 tr final with Some _ => true | None => false end.
+
+(* ---- names ---- *)
+Definition nfiles_of (files:list (string * list string)) : list nfile :=
+  map (fun p => {| nf_key := b (fst p); nf_imports := map b (snd p) |}) files.
+
+(* the name asked for file i is one that an import line of a file that was read resolves to (which of several
+   spellings of one file wins the claim is the scheduler's choice; the observation settles it) *)
+Definition name_explained (fs:list nfile) (res:bytes) (asked:list (idx * bytes * bytes)) (i:idx) (name:bytes) : bool :=
+  existsb (fun a => match a with (j, _, verj) =>
+      match nth_error fs (N.to_nat j) with
       | None => false
-      | Some s => quiescent s
-                  && option_eqb (list_eqb N.eqb) (flatten r (flatten_fuel s) (claimed s) [] root) (Some final)
-                  && list_eqb N.eqb (reads s) (map fst tr)
+      | Some f => existsb (fun raw => N.eqb (resolve fs res j raw) i
+                                       && beq (local_read_name (import_name (base_of fs res j) verj raw)) name)
+                          (nf_imports f)
+      end end) asked.
+
+Definition names_ok (fs:list nfile) (res:bytes) (asked:list (idx * bytes * bytes)) : bool :=
+  match asked with
+  | [] => false
+  | (i0, n0, _) :: rest =>
+      N.eqb i0 (root_idx fs res) && beq n0 (local_read_name (resource_name res)) &&
+      forallb (fun a => match a with (i, name, _) => name_explained fs res asked i name end) rest
+  end &&
+  (* every name that was asked for has the index of the file it was answered with *)
+  forallb (fun a => match a with (i, name, _) =>
+      match nth_error fs (N.to_nat i) with Some f => beq (nindex name) (nindex (nf_key f)) | None => false end end) asked.
+
+(* ---- histories ---- *)
+Fixpoint hist_ok (r:rules) (hr:hrules) (p:parser) (ops:list hist_op) : bool :=
+  match ops with
+  | [] => true
+  | CSet maxd su nc np :: rest =>
+      hist_ok r hr (do_set hr p {| s_maxd := maxd; s_summary := su; s_nocheck := nc; s_noparse := np |}) rest
+  | CParse gl root b0 tr final :: rest =>
+      match lock_from r (graph_of gl) (s_maxd (p_settings p)) (start hr p root) root b0 tr final with
+      | None => false
+      | Some st => hist_ok r hr {| p_settings := p_settings p; p_retrieved := claimed st |} rest
       end
+  end.
+
+(* ---- versions / app names ---- *)
+Definition ver_returned (asked:list (idx * bytes * bytes)) (i:idx) : bytes :=
+  match find (fun a => N.eqb (fst (fst a)) i) asked with Some a => snd a | None => [] end.
+
+Definition tgraph_of (files:list (string * list (string * string))) (fs:list nfile) (res:bytes)
+                     (asked:list (idx * bytes * bytes)) : tgraph :=
+  fun i => match nth_error files (N.to_nat i) with
+           | None => []
+           | Some f => map (fun ra => (resolve fs res i (b (fst ra)),
+                                       {| g_app := b (snd ra);
+                                          g_ver := ver_of (import_name (base_of fs res i) (ver_returned asked i) (b (fst ra))) |}))
+                           (snd f)
+           end.
+
+Fixpoint treplay (r:rules) (nocheck:bool) (tg:tgraph) (s:tstate) (tr:list (idx * list idx)) : option tstate :=
+  match tr with
+  | [] => Some s
+  | (f, bl) :: tr' =>
+      match trelease r nocheck tg 0 s f with
+      | None => None
+      | Some s' => if set_eqb (blocked (t_st s')) bl then treplay r nocheck tg s' tr' else None
+      end
+  end.
+
+Definition nerr_ok (r:rules) (files:list (string * list (string * string))) (resource:string) (nocheck:bool)
+                   (b0:list idx) (tr:list (idx * list idx)) (asked:list (idx * string * string)) (err:bool) : bool :=
+  let fs := nfiles_of (map (fun f => (fst f, map fst (snd f))) files) in
+  let res := b resource in
+  let askedb := map (fun a => match a with (i, n, v) => (i, b n, b v) end) asked in
+  let tg := tgraph_of files fs res askedb in
+  let s0 := tsettled r nocheck tg 0 (tinit (root_idx fs res) {| g_app := []; g_ver := ver_of (resource_name res) |}) in
+  set_eqb (blocked (t_st s0)) b0 &&
+  match treplay r nocheck tg s0 tr with
+  | None => false
+  | Some s => quiescent (t_st s) && Bool.eqb (t_err s) err && list_eqb N.eqb (reads (t_st s)) (map fst tr)
+  end &&
+  names_ok fs res askedb.
+
+Definition c05_ok_with (r:rules) (nr:name_rules) (c:c05_case) : bool :=
+  match c with
+  | Lock gl maxd root b0 tr final => lock_ok r (graph_of gl) maxd root b0 tr final
   | Free gl maxd root final =>
       let g := graph_of gl in
       let s := run_fifo r g maxd (fifo_fuel gl) (init root) in
       quiescent s && option_eqb (list_eqb N.eqb) (flatten r (flatten_fuel s) (claimed s) [] root) (Some final)
+  | NLock files resource maxd b0 tr final asked =>
+      let fs := nfiles_of files in
+      let res := b resource in
+      lock_ok r (ngraph fs res) maxd (root_idx fs res) b0 tr final
+      && names_ok fs res (map (fun a => match a with (i, n, v) => (i, b n, b v) end) asked)
+      && list_eqb N.eqb (map (fun a => fst (fst a)) asked) (map fst tr)
+  | Hist ops => hist_ok r (hrules_of nr) new_parser ops
+  | NErr files resource nocheck b0 tr asked err => nerr_ok r files resource nocheck b0 tr asked err
   end.
+
+(* kept for the callers of the first rounds: cases without names or histories *)
+Definition c05_ok (r:rules) (c:c05_case) : bool := c05_ok_with r expected_name_rules c.
